@@ -698,3 +698,15 @@ Proof.
     cbn [drop_arena fst chunks slots tws map app].
     split; [split; [constructor|split; [constructor|exact I]] | split; [constructor | exact I]].
 Qed.
+
+(* try_alloc never touches the list of pending initialisers *)
+Lemma try_alloc_tws k A b l : tws (fst (try_alloc k A b l)) = tws b.
+Proof.
+  unfold try_alloc. destruct (fast k b l) as [[p b1]|] eqn:F; cbn [fst].
+  - unfold fast in F. destruct (fast_ptr _ _ _ _); [|discriminate]. inversion F; subst.
+    apply set_ptr_fields.
+  - unfold slow. destruct (A b (ForLayout l)) as [a reqs]. destruct a as [|w|g data]; cbn [fst]; try reflexivity.
+    destruct (fast k (push_chunk b (new_chunk k b g data)) l) as [[p b2]|] eqn:F2; cbn [fst]; [|reflexivity].
+    unfold fast in F2. destruct (fast_ptr _ _ _ _); [|discriminate]. inversion F2; subst.
+    destruct (set_ptr_fields (push_chunk b (new_chunk k b g data)) p) as [T _]. rewrite T. reflexivity.
+Qed.
